@@ -2,7 +2,7 @@
    Nothing but statements, closed by [exact], each followed by Print Assumptions. *)
 From Coq Require Import ZArith QArith List Bool.
 From RV Require Import Base.Wire Base.Text Lang.PyAst Lang.PySem Gen.SafeCasts Lang.ConstEval Proofs.ConstEvalP Proofs.ConstEvalCostP Proofs.ConstEvalBoundP.
-From RV Require Import Lang.Regex Gen.Regexes Proofs.RegexP Proofs.RegexTableP Gen.SetSites Lang.FoldSession Proofs.FoldSessionP.
+From RV Require Import Lang.Regex Gen.Regexes Proofs.RegexP Proofs.RegexTableP Gen.SetSites Lang.FoldSession Proofs.FoldSessionP Gen.SafeCasts Lang.NameSession Proofs.NameSessionP.
 From RV Require Import Lang.VariantCost Proofs.VariantCostP.
 From RV Require Import Lang.NestDepth Proofs.NestDepthP Gen.NestDepth Proofs.NestDepthTableP.
 Import ListNotations.
@@ -238,6 +238,49 @@ Example C11_fold_session_nonvacuous :
     [[OLenIs 3; OPattern [1; 0; 1]]; [OLenIs 5; OPattern [1; 0; 1; 0; 1]]; [OLenIs 3; OPattern [1; 0; 1]]].
 Proof. exact session_nonvacuous. Qed.
 Print Assumptions C11_fold_session_nonvacuous.
+
+(* the whitelist of foldable builtin names (_SAFE_NAME_REFERENCES) across the parse() calls of one process (Lang/NameSession.v):
+   a script that itself binds len / str / int ... - recorded nowhere (the code) or in the per-parse context: every script's
+   folds are its own, whatever was transpiled before; a parse() leaves the module-level whitelist as it found it *)
+Theorem C11_name_session_stateless : forall mode, local_mode mode = true -> forall before p after,
+  nth_error (nsession mode safe_name_references (before ++ p :: after)) (length before) = Some (nalone mode p).
+Proof. exact nsession_stateless_alone. Qed.
+Print Assumptions C11_name_session_stateless.
+
+Theorem C11_parse_leaves_whitelist : forall mode wl p, local_mode mode = true -> snd (nparse1 mode wl p) = wl.
+Proof. exact nparse_leaves_whitelist. Qed.
+Print Assumptions C11_parse_leaves_whitelist.
+
+(* the guard is tight: "shadowing" by discarding the name from the module-level set outlives the parse *)
+Theorem C11_name_shadow_in_module_set_refuted :
+  exists A B, nth_error (nsession ShModule safe_name_references [A; B]) 1 <> Some (nalone ShModule B).
+Proof. exact shadow_module_refutes. Qed.
+Print Assumptions C11_name_shadow_in_module_set_refuted.
+
+Example C11_name_shadow_witness :
+  nalone ShModule shadow_B = [NFolded n_len 3; NFolded n_str 12] /\
+  nsession ShModule safe_name_references [shadow_B; shadow_A; shadow_B] =
+    [[NFolded n_len 3; NFolded n_str 12]; [NRuntime n_len 3]; [NRuntime n_len 3; NFolded n_str 12]].
+Proof. exact shadow_leaks. Qed.
+Print Assumptions C11_name_shadow_witness.
+
+Example C11_name_session_nonvacuous :
+  nsession ShPerParse safe_name_references [shadow_B; shadow_A; shadow_B] =
+    [[NFolded n_len 3; NFolded n_str 12]; [NRuntime n_len 3]; [NFolded n_len 3; NFolded n_str 12]] /\
+  nsession ShNone safe_name_references [shadow_A; shadow_B] = [[NFolded n_len 3]; [NFolded n_len 3; NFolded n_str 12]].
+Proof. exact shadow_per_parse. Qed.
+Print Assumptions C11_name_session_nonvacuous.
+
+(* the CURRENT source (Gen/SetSites.v): the whitelist object is in the inventory, is mutated nowhere and is used in membership
+   tests only - it cannot reach anything that could change it *)
+Theorem C11_whitelist_confined_current_source : wl_listed = true /\ whitelist_escapes = false.
+Proof. exact whitelist_confined. Qed.
+Print Assumptions C11_whitelist_confined_current_source.
+
+Theorem C11_name_session_stateless_current_source : forall before p after,
+  nth_error (nsession current_mode safe_name_references (before ++ p :: after)) (length before) = Some (nalone current_mode p).
+Proof. exact nsession_stateless_current_source. Qed.
+Print Assumptions C11_name_session_stateless_current_source.
 
 (* F-C11-blank-run-cubic (open finding): flat is polynomial, not linear.  The argument part  \s*(.*?)\s*  of every declaration /
    method pattern is three adjacent runs that all accept a blank: C(n + 3, 3) backtracking paths on n blanks - the degree-3
